@@ -6,6 +6,7 @@ import io
 import os
 import shutil
 import tempfile
+import zlib
 
 from hypothesis import strategies as st
 
@@ -58,7 +59,8 @@ def run_ipm_tool(tool, data, a, b, fa, fb, scratch):
     """convert IPM bytes; returns output bytes"""
     if tool == 'mci_ipm_encode':
         out = io.BytesIO()
-        mci_ipm_encode.mci_ipm_encode(io.BytesIO(data), out_file=out, in_encoding=a, out_encoding=b, in_format=fa, out_format=fb)
+        mci_ipm_encode.mci_ipm_encode(io.BytesIO(data), out_file=out, in_encoding=a, out_encoding=b, in_format=fa, out_format=fb,
+                                      **({'debug': True} if zlib.crc32(data) % 4 == 1 else {}))
         return out.getvalue()
     src = os.path.join(scratch, 'in.ipm')
     with open(src, 'wb') as f:
@@ -66,10 +68,10 @@ def run_ipm_tool(tool, data, a, b, fa, fb, scratch):
     if tool == 'mci_ipm_encode-cli':
         dst = os.path.join(scratch, 'out.ipm')
         with quiet():
-            argv = [src, '-o', dst, '--in-encoding', a, '--out-encoding', b, '--in-format', fa, '--out-format', fb]
+            argv = [src, '-o', dst, '--in-encoding', a, '--out-encoding', b, '--in-format', fa, '--out-format', fb] + opts(data)
             mci_ipm_encode.cli_run(**vars(mci_ipm_encode.cli_parser().parse_args(argv)))   # what cli_entry does with sys.argv
     else:  # mideu convert
-        args = ['convert', src, '-s', 'ebcdic' if a == 'cp500' else 'ascii']
+        args = ['convert', src, '-s', 'ebcdic' if a == 'cp500' else 'ascii'] + opts(data, '-d' if len(data) % 3 else '-v')
         if fa == 'vbs':
             args.append('--no1014blocking')
         with quiet():
@@ -77,6 +79,11 @@ def run_ipm_tool(tool, data, a, b, fa, fb, scratch):
         dst = src + '.out'
     with open(dst, 'rb') as f:
         return f.read()
+
+
+def opts(data, flag='--debug'):
+    """the tools' own diagnostic switches are part of how they are run: half of the invocations carry --debug / -d / -v"""
+    return [flag] if zlib.crc32(data) % 2 else []
 
 
 def looks_blocked(data):
@@ -123,7 +130,8 @@ def check_ipm(tool, msgs, a, b, fa, fb, scratch):
 def run_param_tool(tool, data, a, b, fa, fb, scratch):
     if tool == 'mci_ipm_param_encode':
         out = io.BytesIO()
-        mci_ipm_param_encode.mci_ipm_param_encode(io.BytesIO(data), out, in_encoding=a, out_encoding=b, in_format=fa, out_format=fb)
+        mci_ipm_param_encode.mci_ipm_param_encode(io.BytesIO(data), out, in_encoding=a, out_encoding=b, in_format=fa, out_format=fb,
+                                                  **({'debug': True} if zlib.crc32(data) % 4 == 1 else {}))   # cli_run forwards its --debug like this
         return out.getvalue()
     src = os.path.join(scratch, 'in.par')
     dst = os.path.join(scratch, 'out.par')
@@ -131,10 +139,10 @@ def run_param_tool(tool, data, a, b, fa, fb, scratch):
         f.write(data)
     if tool == 'mci_ipm_param_encode-cli':
         with quiet():
-            argv = [src, '-o', dst, '--in-encoding', a, '--out-encoding', b, '--in-format', fa, '--out-format', fb]
+            argv = [src, '-o', dst, '--in-encoding', a, '--out-encoding', b, '--in-format', fa, '--out-format', fb] + opts(data)
             mci_ipm_param_encode.cli_run(**vars(mci_ipm_param_encode.cli_parser().parse_args(argv)))
     else:  # paramconv
-        args = [src, '-o', dst, '-s', 'ebcdic' if a == 'cp500' else 'ascii']
+        args = [src, '-o', dst, '-s', 'ebcdic' if a == 'cp500' else 'ascii'] + opts(data, '-d' if len(data) % 3 else '-v')
         if fa == 'vbs':
             args.append('--no1014blocking')
         with quiet():
